@@ -75,6 +75,8 @@ def make_driver(cfg, T, asize, options, mode):
             letters = [({k: float(v) for k, v in x.items()}, (float(y) if not isinstance(y, str) else y))
                        for x, y in letters]
         ex = h.expl
+        if options and mode == 'exact':
+            h.model.positional = True
         seen = []
         maxloss = 1.0
         import copy as _copy
@@ -87,6 +89,8 @@ def make_driver(cfg, T, asize, options, mode):
                     break
                 ex = fork                        # ... and used afterwards: it must be independent of the original
             x, y = letters[run.choose(len(letters), 'obs', None, 0)] if t < T else letters[-1]
+            if t < T and options and mode == 'exact':
+                x = sc.shaped(x, run.choose(3, 'shape', None, 1), t)     # non-uniform observation dicts
             kw = {}
             if t < T and options and (t >= 1 or cfg['imputer'] == 'default'):
                 o = run.choose(3, 'opt', None, 1)
